@@ -162,7 +162,7 @@ var clauseKeywords = map[string]bool{
 	"modifies": true, "panics-when": true, "invariant": true, "ghost": true, "ghost-param": true,
 	"decreases": true, "arith": true, "inline": true, "pure": true, "calllog": true, "call": true,
 	"assert": true, "lock": true, "finding": true, "pred": true, "fun": true, "axiom": true,
-	"lemma": true, "guards": true, "trusted": true, "note": true, "opt": true, "exit-ghost": true,
+	"lemma": true, "guards": true, "trusted": true, "note": true, "opt": true, "exit-ghost": true, "release-views": true,
 	"use": true, "ufun": true, "ghost-at": true, "lockinv": true,
 }
 
@@ -381,6 +381,12 @@ func (cs *ContractSet) parseLines(file string, lines []string, nums []int, exter
 				}
 				cur.Ghosts = append(cur.Ghosts, GhostDecl{f[0], te, init})
 			}
+		case "release-views":
+			// release-views a = e; b = f: witnesses for the ghost views named by the lock invariant when the mutex is released
+			if cur.Opts == nil {
+				cur.Opts = map[string]string{}
+			}
+			cur.Opts["release-views"] = it.rest
 		case "exit-ghost":
 			c, _ := mk(false)
 			cur.ExitGhost = append(cur.ExitGhost, c)
